@@ -238,6 +238,20 @@ def r4_pool(repo):
                       "the candidate pool handed to _compute_type_variable_assignments: " + why))
     if len(callers) < 3:
         raise AnalysisError("callers of _compute_type_variable_assignments: %d" % len(callers), rule="C08-R4")
+    for q, want_ftc, want_vc in ((TU + ".instantiate_type_constructor", True, "variance_choices"),
+                                 (TU + ".instantiate_parameterized_function", False, "None")):
+        f = repo.fn(q)
+        cc = [c for c in calls_in(f.node) if call_name(c) == "_compute_type_variable_assignments"]
+        ok = len(cc) == 1
+        if ok:
+            ftc = kwarg(cc[0], "for_type_constructor", 4)
+            vc = kwarg(cc[0], "variance_choices", 3)
+            ok = ftc is not None and const_value(ftc, None) is want_ftc and vc is not None and src(vc) == want_vc and \
+                src(kwarg(cc[0], "type_var_map", 2)) == "type_var_map"
+        obs.append(Ob("C08-R4", "%s:mode-flags" % f.name, _w(f), ok,
+                      "%s must call _compute_type_variable_assignments(..., type_var_map=type_var_map, variance_choices=%s, "
+                      "for_type_constructor=%s) explicitly (generic functions get no projections and `Nothing` for a "
+                      "parameter bounded by a covariantly projected class variable)" % (f.name, want_vc, want_ftc)))
     f = repo.fn(TU + "._get_available_types")
     loops = [n for n in f.node.body if isinstance(n, ast.For)]
     ok1 = ok2 = ok3 = ok4 = False
@@ -544,6 +558,12 @@ def _v_generator_unboxed_pool(tree):
     c[0].keywords = [ast.keyword(arg="only_regular", value=ast.Constant(value=True))]
 
 
+def _v_function_as_constructor(tree):
+    f = V.find_def(tree, "instantiate_parameterized_function")
+    c = V.one([n for n in ast.walk(f) if V.is_call_named(n, "_compute_type_variable_assignments")])
+    c.keywords = [k for k in c.keywords if k.arg not in ("variance_choices", "for_type_constructor")]
+
+
 def _t_rename(tree):
     f = _ctva(tree)
     V.rename_local(f, "a_types", "candidates")
@@ -567,6 +587,7 @@ def variants():
         V.Variant("pre-assignment ignored", t, _v_preassignment_ignored, {"C08-R5", "C08-R6"}),
         V.Variant("PECS table swapped for parameters", t, _v_pecs_swapped, {"C08-R7"}),
         V.Variant("generator's direct caller uses an unboxed pool", "src/generators/generator.py", _v_generator_unboxed_pool, {"C08-R4"}),
+        V.Variant("generic functions instantiated with the rules for classes", t, _v_function_as_constructor, {"C08-R4"}),
         V.Variant("twin: rename locals", t, _t_rename, None, twin=True),
         V.Variant("twin: whole tree reformatted by ast.unparse", None, None, None, twin=True),
     ]
